@@ -430,6 +430,34 @@ class Program:
     def find_bodies(self, suffix):
         return [b for p, b in self.bodies.items() if p.endswith(suffix)]
 
+    def inlined_view(self, path, callee_suffixes):
+        """A copy of body `path` with its calls to the workspace functions named by `callee_suffixes` replaced by their bodies
+        (engine/inline._inline_call).  A rule that reads a function together with a small helper it calls is written against
+        this view: it sees the same statements whether the helper exists or was written out inline at the call."""
+        import copy
+        from . import inline as _inline
+        key = (path, tuple(callee_suffixes))
+        cache = self.__dict__.setdefault("_views", {})
+        if key in cache:
+            return cache[key]
+        b0 = self.body(path)
+        raw = copy.deepcopy(b0.raw)
+        i = 0
+        n = 0
+        while i < len(raw["blocks"]) and n < 20:
+            t = raw["blocks"][i]["t"]
+            if t["k"] == "call":
+                c = t.get("res") or t.get("decl") or ""
+                cal = self.bodies.get(c)
+                if cal is not None and c != path and c.endswith(tuple(callee_suffixes)) and not _inline._has_opaque(cal.raw) \
+                        and len(cal.raw["blocks"]) <= _inline.MAX_CALLEE_BLOCKS:
+                    _inline._inline_call(raw, i, cal.raw)
+                    raw.setdefault("inlined", []).append(c)
+                    n += 1
+            i += 1
+        cache[key] = Body(raw, b0.crate)
+        return cache[key]
+
     def closures_of(self, path):
         """closure bodies created in `path` - including those of new functions inlined into it"""
         pres = [path + "::{closure#"]
